@@ -237,9 +237,12 @@ def validate_shard(args):
 def validate(trace_path, d, module="TabularTrace", nshards=None, timeout=1800):
     """Trace validation of a whole trace file, sharded over processes.
     Returns (mismatch records, lines validated)."""
-    nshards = nshards or NCPU
     size = os.path.getsize(trace_path)
-    nshards = max(1, min(nshards, size // 200000 + 1))
+    if nshards is None:
+        # at least one shard per core for mid-sized traces, and never more than ~48 MB per shard (a TLC
+        # process holds its whole shard in memory); shards run NCPU at a time
+        nshards = max(min(NCPU, size // 200000 + 1), size // 48000000 + 1)
+    nshards = max(1, nshards)
     single = nshards == 1
     if single:
         paths, nlines = [trace_path], sum(1 for _ in open(trace_path))
@@ -247,7 +250,7 @@ def validate(trace_path, d, module="TabularTrace", nshards=None, timeout=1800):
         paths, nlines = shard_trace(trace_path, d, nshards)
     recs = []
     total = 0
-    with concurrent.futures.ThreadPoolExecutor(max_workers=len(paths)) as ex:
+    with concurrent.futures.ThreadPoolExecutor(max_workers=min(len(paths), NCPU)) as ex:
         for r in ex.map(validate_shard, [(d, i, p, module, timeout) for i, p in enumerate(paths)]):
             if "error" in r:
                 raise Infra(r["error"])
